@@ -173,6 +173,7 @@ func resetTokens() {
 		tokKeys[i] = 0
 	}
 	tokSlots = tokSlots[:0]
+	resetConds()
 }
 
 // yield hands the baton to the controller and waits to get it back.
@@ -324,6 +325,129 @@ func (t *Task) unlocked(m unsafe.Pointer, site int) {
 	t.rmu = m
 	t.rsite = site
 	t.yield(reqUnlock)
+}
+
+// ---- sync.Locker / sync.Cond of package validate (R3) ----
+
+// LockerLock / LockerUnlock replace l.Lock() / l.Unlock() on a sync.Locker value (typically the L of a Cond).
+func LockerLock(l sync.Locker, site int) {
+	switch v := l.(type) {
+	case *sync.Mutex:
+		MutexLock(v, site)
+	case *sync.RWMutex:
+		RWMutexLock(v, site)
+	default:
+		if t := runningTask(); t != nil {
+			t.yieldAt(site)
+		}
+		l.Lock()
+	}
+}
+
+func LockerUnlock(l sync.Locker, site int) {
+	switch v := l.(type) {
+	case *sync.Mutex:
+		MutexUnlock(v, site)
+	case *sync.RWMutex:
+		RWMutexUnlock(v, site)
+	default:
+		l.Unlock()
+		if t := runningTask(); t != nil {
+			t.yieldAt(site)
+		}
+	}
+}
+
+// Condition variables are emulated with the ticket scheme the runtime itself uses (FIFO): Wait takes a ticket, releases L
+// and is blocked until the ticket has been notified; Signal notifies the oldest waiting ticket, Broadcast all of them.
+// The real Cond is never waited on in a multi-task run (a task blocked in the runtime would keep the baton).
+const condSize = 64
+
+var (
+	condKeys [condSize]uintptr
+	condNext [condSize]uint64 // next ticket to hand out
+	condWake [condSize]uint64 // tickets below this one have been notified
+)
+
+//go:norace
+func condSlot(c *sync.Cond) int {
+	a := uintptr(unsafe.Pointer(c))
+	i := int((a>>4)*2654435761) & (condSize - 1)
+	for n := 0; n < condSize; n++ {
+		if condKeys[i] == a {
+			return i
+		}
+		if condKeys[i] == 0 {
+			condKeys[i] = a
+			condNext[i], condWake[i] = 0, 0
+			return i
+		}
+		i = (i + 1) & (condSize - 1)
+	}
+	panic("verif/rt: more than 64 condition variables in one run: enlarge condSize")
+}
+
+//go:norace
+func condTake(i int) uint64 { n := condNext[i]; condNext[i]++; return n }
+
+//go:norace
+func condNotified(i int, ticket uint64) bool { return ticket < condWake[i] }
+
+//go:norace
+func condNotify(i int, all bool) {
+	if all {
+		condWake[i] = condNext[i]
+	} else if condWake[i] < condNext[i] {
+		condWake[i]++
+	}
+}
+
+//go:norace
+func resetConds() {
+	for i := range condKeys {
+		condKeys[i] = 0
+	}
+}
+
+func CondWait(c *sync.Cond, site int) {
+	t := runningTask()
+	if t == nil {
+		if singleCaller() {
+			inlineDeadlock("sync.Cond.Wait", site) // nobody is there to signal
+		}
+		c.Wait()
+		return
+	}
+	t.yieldAt(site)
+	i := condSlot(c)
+	ticket := condTake(i)
+	LockerUnlock(c.L, site)
+	for !condNotified(i, ticket) {
+		t.blockOn(unsafe.Pointer(c))
+	}
+	LockerLock(c.L, site)
+}
+
+func CondSignal(c *sync.Cond, site int) {
+	t := runningTask()
+	if t == nil {
+		c.Signal()
+		return
+	}
+	t.yieldAt(site)
+	condNotify(condSlot(c), false)
+	t.unlocked(unsafe.Pointer(c), site)
+}
+
+func CondBroadcast(c *sync.Cond, site int) {
+	t := runningTask()
+	if t == nil {
+		c.Broadcast()
+		return
+	}
+	t.yieldAt(site)
+	condNotify(condSlot(c), true)
+	t.unlocked(unsafe.Pointer(c), site)
 }
 
 // singleCaller tells whether the library is known to be executed by one goroutine only right now: an inline run of the
